@@ -398,8 +398,8 @@ def shards(tier, seed):
             sh(f"ia-triples-{i}", b, container="ia", colls=ch)
         t4 = [["A:x", "A:x", "A:x"], ["A:x", "A:x", "I:x"], ["A:x", "I:x", "cA:x"], ["I:x", "I:x", "cA:x"]]
         tsx = [["A:x", "A:x", "I:x", "S:x"], ["A:x", "I:x", "cA:x", "S:x"], ["I:x", "I:x", "A:y", "S:x"], ["A:x", "A:y", "cI:x", "S:xy"]]
-        for i, ch in enumerate(_chunks(tsx, 2)):
-            sh(f"ia-triples-S-{i}", b, container="ia", colls=ch)
+        for i, c in enumerate(tsx):
+            sh(f"ia-triples-S-{i}", b, container="ia", colls=[c])
         sh("ev-pairs-Sx", b, container="ev", colls=[c + ["S:x"] for c in _multisets(["A:x", "I:x", "cI:x", "A:y"], 2)])
         sh("da-pairs", b, container="da", timing="delay", delay_hi=2, colls=_multisets(["A:x", "I:x", "D:x", "cA:x", "Ay:x", "A:x@o"], 2))
         for tmg in ("start", "end"):
